@@ -45,7 +45,7 @@ def blocks(thorough):
         spec = [
             dict(id="s2w4-kf1-kp1-rich", segs=(1, 2), words=4, kf=1, kp=1, rich=True),
             dict(id="s3w2-kf1-kp1", segs=(3, 3), words=2, kf=1, kp=1),
-            dict(id="s3w4u-kf1-kp1", segs=(3, 3), words=4, wsel="uniform34", kf=1, kp=1, exec="none"),
+            dict(id="s3w3u-kf1-kp1", segs=(3, 3), words=3, wsel="uniform3", kf=1, kp=1, exec="none"),
             dict(id="s3w4-kf0-kp1", segs=(3, 3), words=4, kf=0, kp=1, exec="none"),
             dict(id="s2w3-kf2-kp0", segs=(1, 2), words=3, kf=2, kfmin=2, kp=0, exec="none"),
             dict(id="s2w3-kf0-kp2-rich", segs=(1, 2), words=3, kf=0, kp=2, kpmin=2, rich=True, exec="none"),
@@ -57,7 +57,7 @@ def blocks(thorough):
 
 def _wcounts(nseg, words, wsel):
     for wc in itertools.product(range(1, words + 1), repeat=nseg):
-        if wsel == "uniform34" and not (len(set(wc)) == 1 and wc[0] >= 3):
+        if wsel == "uniform3" and set(wc) != {3}:
             continue
         if wsel == "eq2" and set(wc) != {2}:
             continue
@@ -227,10 +227,10 @@ def _wraps(rich):
         out += [["oneline", k] for k in ONELINE_QUICK]
     else:
         for depth in (1, 2, 3):
-            for kind in KINDS:
+            for kind in KINDS if depth == 1 else ("if", "for", "def"):
                 for unit in ("    ", "\t", "  "):
                     out.append(["block", kind, depth, unit, None])
-        for kind in KINDS:
+        for kind in ("if", "while", "try", "def"):
             for sib in ("before", "after", "both"):
                 out.append(["block", kind, 1, "    ", sib])
         out += [["oneline", k] for k in ONELINE_RICH]
